@@ -628,7 +628,8 @@ func TestPluginSchemas(t *testing.T) {
 				}
 			}
 			for j := 0; j < rapid.IntRange(0, 2).Draw(rt, "nEmitters"); j++ {
-				sg := SignalSpec{ID: fmt.Sprintf("sig_out_%d", j), Data: scopeGen("emitterData"), Display: genDisplay(rt, "signal")}
+				// an emitter may carry the ID of one of the step's handlers (the SDK's own test plugin does)
+				sg := SignalSpec{ID: fmt.Sprintf("%s_%d", rapid.SampledFrom([]string{"sig_out", "sig_in"}).Draw(rt, "emitterIDStem"), j), Data: scopeGen("emitterData"), Display: genDisplay(rt, "signal")}
 				st.Emitters = append(st.Emitters, sg)
 				sigCount++
 				if spec.Kinds(sg.Data)[spec.KRef] {
